@@ -3,6 +3,7 @@
   environment is the `HashMap`; an assignment through the shell's environment is seen by every caller.
 -/
 import YashModel.Arith.Shell
+import YashModel.Arith.SemLemmas
 namespace YashModel.Arith
 open YashModel.Generated.ArithTables
 
@@ -149,5 +150,347 @@ theorem assign_scope (c r : Ctx) (rs : List Ctx) (n : Name) (v : List Char) (cs'
 theorem assign_readonly (c : Ctx) (rest : List Ctx) (n : Name) (v : List Char) (w : SVar)
     (hw : c.find n = some w) (hro : w.readOnly = true) : assignVisibleOrGlobal (c :: rest) n v = none := by
   cases rest <;> simp [assignVisibleOrGlobal, hw, hro]
+
+/-! ### what an evaluation can do to the store: only `assign_variable` changes it -/
+
+theorem valueTermG_ok {σ : Type} {r : Res (Int × σ)} {t : Term} {s' : σ} (h : valueTermG r = .ok (t, s')) :
+    ∃ v, r = .ok (v, s') := by
+  unfold valueTermG at h
+  obtain ⟨a, ha, hf⟩ := Res.bind_eq_ok h
+  obtain ⟨v, e⟩ := a
+  simp only [Res.ok.injEq, Prod.mk.injEq] at hf
+  exact ⟨v, by rw [ha, hf.2]⟩
+
+section Preserve
+variable {σ : Type} (I : EnvI σ) (Q : σ → Prop)
+  (hQ : ∀ s n v s', Q s → I.assign s n v = .ok s' → Q s')
+include hQ
+
+theorem assignG_preserves {n : Name} {v : Int} {s s' : σ} {w : Int} (hs : Q s)
+    (h : assignG I n v s = .ok (w, s')) : Q s' := by
+  unfold assignG at h
+  obtain ⟨s1, h1, h2⟩ := Res.bind_eq_ok h
+  simp only [Res.ok.injEq, Prod.mk.injEq] at h2
+  rw [← h2.2]; exact hQ s n _ s1 hs h1
+
+theorem applyPrefixG_preserves {t : Term} {op : PrefixOperator} {s s' : σ} {w : Int} (hs : Q s)
+    (h : applyPrefixG I t op s = .ok (w, s')) : Q s' := by
+  cases op <;> simp only [applyPrefixG] at h
+  · obtain ⟨_, _, h⟩ := Res.bind_eq_ok h
+    obtain ⟨_, _, h⟩ := Res.bind_eq_ok h
+    obtain ⟨_, _, h⟩ := Res.bind_eq_ok h
+    exact assignG_preserves I Q hQ hs h
+  · obtain ⟨_, _, h⟩ := Res.bind_eq_ok h
+    obtain ⟨_, _, h⟩ := Res.bind_eq_ok h
+    obtain ⟨_, _, h⟩ := Res.bind_eq_ok h
+    exact assignG_preserves I Q hQ hs h
+  · obtain ⟨_, _, h⟩ := Res.bind_eq_ok h
+    simp only [Res.ok.injEq, Prod.mk.injEq] at h; rw [← h.2]; exact hs
+  · obtain ⟨_, _, h⟩ := Res.bind_eq_ok h
+    obtain ⟨_, _, h⟩ := Res.bind_eq_ok h
+    simp only [Res.ok.injEq, Prod.mk.injEq] at h; rw [← h.2]; exact hs
+  · obtain ⟨_, _, h⟩ := Res.bind_eq_ok h
+    simp only [Res.ok.injEq, Prod.mk.injEq] at h; rw [← h.2]; exact hs
+  · obtain ⟨_, _, h⟩ := Res.bind_eq_ok h
+    simp only [Res.ok.injEq, Prod.mk.injEq] at h; rw [← h.2]; exact hs
+
+theorem applyPostfixG_preserves {t : Term} {op : PostfixOperator} {s s' : σ} {w : Int} (hs : Q s)
+    (h : applyPostfixG I t op s = .ok (w, s')) : Q s' := by
+  unfold applyPostfixG at h
+  obtain ⟨_, _, h⟩ := Res.bind_eq_ok h
+  obtain ⟨_, _, h⟩ := Res.bind_eq_ok h
+  obtain ⟨_, _, h⟩ := Res.bind_eq_ok h
+  obtain ⟨p, hp, h⟩ := Res.bind_eq_ok h
+  obtain ⟨p1, p2⟩ := p
+  simp only [Res.ok.injEq, Prod.mk.injEq] at h
+  rw [← h.2]; exact assignG_preserves I Q hQ hs hp
+
+theorem applyBinaryG_preserves {l r : Term} {op : BinaryOperator} {s s' : σ} {w : Int} (hs : Q s)
+    (h : applyBinaryG I l r op s = .ok (w, s')) : Q s' := by
+  unfold applyBinaryG at h
+  split at h
+  · obtain ⟨_, _, h⟩ := Res.bind_eq_ok h
+    obtain ⟨_, _, h⟩ := Res.bind_eq_ok h
+    obtain ⟨_, _, h⟩ := Res.bind_eq_ok h
+    simp only [Res.ok.injEq, Prod.mk.injEq] at h; rw [← h.2]; exact hs
+  · obtain ⟨_, _, h⟩ := Res.bind_eq_ok h
+    obtain ⟨_, _, h⟩ := Res.bind_eq_ok h
+    exact assignG_preserves I Q hQ hs h
+  · obtain ⟨_, _, h⟩ := Res.bind_eq_ok h
+    obtain ⟨_, _, h⟩ := Res.bind_eq_ok h
+    obtain ⟨_, _, h⟩ := Res.bind_eq_ok h
+    obtain ⟨_, _, h⟩ := Res.bind_eq_ok h
+    exact assignG_preserves I Q hQ hs h
+
+/-- an evaluation changes the state only through `assign_variable` -/
+theorem evalG_preserves (f : Nat) : ∀ (ast : List Ast) (s s' : σ) (t : Term), Q s →
+    evalG I f ast s = .ok (t, s') → Q s' := by
+  induction f with
+  | zero => intro ast s s' t _ h; simp [evalG] at h
+  | succ f ih =>
+    intro ast s s' t hs h
+    rw [evalG] at h
+    cases hsl : splitLast ast with
+    | none => simp [hsl] at h
+    | some p =>
+      obtain ⟨children, root⟩ := p
+      simp only [hsl] at h
+      cases root with
+      | term tm => simp only [Res.ok.injEq, Prod.mk.injEq] at h; rw [← h.2]; exact hs
+      | pre op =>
+        simp only at h
+        obtain ⟨a, ha, h⟩ := Res.bind_eq_ok h
+        obtain ⟨t1, s1⟩ := a
+        obtain ⟨v, hv⟩ := valueTermG_ok h
+        exact applyPrefixG_preserves I Q hQ (ih _ _ _ _ hs ha) hv
+      | post op =>
+        simp only at h
+        obtain ⟨a, ha, h⟩ := Res.bind_eq_ok h
+        obtain ⟨t1, s1⟩ := a
+        obtain ⟨v, hv⟩ := valueTermG_ok h
+        exact applyPostfixG_preserves I Q hQ (ih _ _ _ _ hs ha) hv
+      | binary op rhsLen =>
+        simp only at h
+        cases hsp : splitAtEnd children rhsLen with
+        | none => simp [hsp] at h
+        | some q =>
+          obtain ⟨l, r⟩ := q
+          simp only [hsp] at h
+          by_cases hor : op = .LogicalOr
+          · rw [if_pos hor] at h
+            obtain ⟨a, ha, h⟩ := Res.bind_eq_ok h
+            obtain ⟨lt, s1⟩ := a
+            obtain ⟨lv, _, h⟩ := Res.bind_eq_ok h
+            have h1 := ih _ _ _ _ hs ha
+            by_cases hz : lv ≠ 0
+            · rw [if_pos hz] at h
+              simp only [Res.ok.injEq, Prod.mk.injEq] at h; rw [← h.2]; exact h1
+            · rw [if_neg hz] at h
+              obtain ⟨b, hb, h⟩ := Res.bind_eq_ok h
+              obtain ⟨rt, s2⟩ := b
+              obtain ⟨_, _, h⟩ := Res.bind_eq_ok h
+              obtain ⟨_, _, h⟩ := Res.bind_eq_ok h
+              simp only [Res.ok.injEq, Prod.mk.injEq] at h; rw [← h.2]; exact ih _ _ _ _ h1 hb
+          · rw [if_neg hor] at h
+            by_cases hand : op = .LogicalAnd
+            · rw [if_pos hand] at h
+              obtain ⟨a, ha, h⟩ := Res.bind_eq_ok h
+              obtain ⟨lt, s1⟩ := a
+              obtain ⟨lv, _, h⟩ := Res.bind_eq_ok h
+              have h1 := ih _ _ _ _ hs ha
+              by_cases hz : lv = 0
+              · rw [if_pos hz] at h
+                simp only [Res.ok.injEq, Prod.mk.injEq] at h; rw [← h.2]; exact h1
+              · rw [if_neg hz] at h
+                obtain ⟨b, hb, h⟩ := Res.bind_eq_ok h
+                obtain ⟨rt, s2⟩ := b
+                obtain ⟨_, _, h⟩ := Res.bind_eq_ok h
+                obtain ⟨_, _, h⟩ := Res.bind_eq_ok h
+                simp only [Res.ok.injEq, Prod.mk.injEq] at h; rw [← h.2]; exact ih _ _ _ _ h1 hb
+            · rw [if_neg hand] at h
+              obtain ⟨a, ha, h⟩ := Res.bind_eq_ok h
+              obtain ⟨lt, s1⟩ := a
+              obtain ⟨b, hb, h⟩ := Res.bind_eq_ok h
+              obtain ⟨rt, s2⟩ := b
+              obtain ⟨v, hv⟩ := valueTermG_ok h
+              exact applyBinaryG_preserves I Q hQ (ih _ _ _ _ (ih _ _ _ _ hs ha) hb) hv
+      | conditional thenLen elseLen =>
+        simp only at h
+        cases hsp : splitAtEnd children elseLen with
+        | none => simp [hsp] at h
+        | some q =>
+          obtain ⟨c2, e⟩ := q
+          simp only [hsp] at h
+          cases hsp2 : splitAtEnd c2 thenLen with
+          | none => simp [hsp2] at h
+          | some q2 =>
+            obtain ⟨c, th⟩ := q2
+            simp only [hsp2] at h
+            obtain ⟨a, ha, h⟩ := Res.bind_eq_ok h
+            obtain ⟨ct, s1⟩ := a
+            obtain ⟨cv, _, h⟩ := Res.bind_eq_ok h
+            have h1 := ih _ _ _ _ hs ha
+            by_cases hz : cv ≠ 0
+            · rw [if_pos hz] at h; exact ih _ _ _ _ h1 h
+            · rw [if_neg hz] at h; exact ih _ _ _ _ h1 h
+
+theorem evalStrG_preserves {portable : Bool} {src : List Char} {s s' : σ} {v : Int} (hs : Q s)
+    (h : evalStrG I portable src s = .ok (v, s')) : Q s' := by
+  unfold evalStrG at h
+  split at h
+  · simp at h
+  · split at h
+    · simp at h
+    · rename_i ast _ _
+      cases hv : evalValueG I ast s with
+      | ok r =>
+        simp only [hv, Except.ok.injEq] at h
+        subst h
+        unfold evalValueG at hv
+        obtain ⟨a, ha, hv⟩ := Res.bind_eq_ok hv
+        obtain ⟨t, s1⟩ := a
+        obtain ⟨_, _, hv⟩ := Res.bind_eq_ok hv
+        simp only [Res.ok.injEq, Prod.mk.injEq] at hv
+        rw [← hv.2]; exact evalG_preserves I Q hQ _ _ _ _ _ hs ha
+      | error e => simp [hv] at h
+      | panic => simp [hv] at h
+      | fuel => simp [hv] at h
+
+end Preserve
+
+/-! ### the function's own context keeps its names: what it did not declare it cannot shadow -/
+
+theorem Ctx.find_put_ne (c : Ctx) (n x : Name) (v : SVar) (h : x ≠ n) : (c.put n v).find x = c.find x := by
+  induction c with
+  | nil => simp [Ctx.put, Ctx.find, List.find?, Ne.symm h]
+  | cons p rest ih =>
+    obtain ⟨m, w⟩ := p
+    unfold Ctx.put
+    by_cases hm : m = n
+    · subst hm
+      simp [Ctx.find, List.find?, Ne.symm h]
+    · simp only [hm, if_false]
+      unfold Ctx.find at ih ⊢
+      by_cases hx : m = x
+      · simp [List.find?, hx]
+      · simp only [List.find?_cons, hx, decide_false]
+        exact ih
+
+theorem assign_length (cs : List Ctx) : ∀ cs' n v, cs ≠ [] → assignVisibleOrGlobal cs n v = some cs' →
+    cs'.length = cs.length := by
+  induction cs with
+  | nil => intro cs' n v h; exact absurd rfl h
+  | cons c rest ih =>
+    intro cs' n v _ h
+    cases rest with
+    | nil =>
+      simp only [assignVisibleOrGlobal] at h
+      split at h
+      · split at h
+        · simp at h
+        · injection h with h; subst h; rfl
+      · injection h with h; subst h; rfl
+    | cons r rs =>
+      simp only [assignVisibleOrGlobal] at h
+      split at h
+      · split at h
+        · simp at h
+        · injection h with h; subst h; rfl
+      · cases hr : assignVisibleOrGlobal (r :: rs) n v with
+        | none => simp [hr] at h
+        | some rest' =>
+          simp only [hr, Option.map, Option.some.injEq] at h
+          subst h
+          simp only [List.length_cons]
+          rw [ih rest' n v (by simp) hr]
+          rfl
+
+/-- inside a function (two or more contexts) whose own context does not have the name `x` -/
+def NoLocal (x : Name) (st : Store) : Prop :=
+  ∃ c r rs, st.ctxs = c :: r :: rs ∧ c.find x = none
+
+theorem noLocal_assign (x : Name) (st st' : Store) (n : Name) (v : List Char) (h : NoLocal x st)
+    (ha : shellI.assign st n v = .ok st') : NoLocal x st' := by
+  obtain ⟨c, r, rs, hc, hx⟩ := h
+  simp only [shellI] at ha
+  cases hs : assignVisibleOrGlobal st.ctxs n v with
+  | none => simp [hs] at ha
+  | some cs =>
+    simp only [hs, Res.ok.injEq] at ha
+    subst ha
+    rw [hc] at hs
+    obtain ⟨h1, h2⟩ := assign_scope c r rs n v cs hs
+    cases hf : c.find n with
+    | none =>
+      obtain ⟨rest', hcs, _⟩ := h1 hf
+      have hlen := assign_length (c :: r :: rs) cs n v (by simp) hs
+      rw [hcs] at hlen
+      cases rest' with
+      | nil => simp at hlen
+      | cons r' rs' => exact ⟨c, r', rs', hcs, hx⟩
+    | some w =>
+      obtain ⟨hcs, _⟩ := h2 w hf
+      have hne : x ≠ n := by intro e; subst e; rw [hx] at hf; simp at hf
+      exact ⟨c.put n ⟨.scalar v, false⟩, r, rs, hcs, by rw [Ctx.find_put_ne c n x _ hne]; exact hx⟩
+
+theorem noLocal_expand (x : Name) (f : Nat) :
+    (∀ st status text t st' s', NoLocal x st → substText f st status text = .ok (t, st', s') → NoLocal x st') ∧
+    (∀ st status text v st' s', NoLocal x st → expandArith f st status text = .ok (v, st', s') → NoLocal x st') := by
+  induction f with
+  | zero =>
+    refine ⟨?_, ?_⟩
+    · intro st status text t st' s' _ h; simp [substText] at h
+    · intro st status text v st' s' _ h; simp [expandArith] at h
+  | succ f ih =>
+    obtain ⟨ihS, ihE⟩ := ih
+    refine ⟨?_, ?_⟩
+    · intro st status text t st' s' hn h
+      have hmap : ∀ (g : List Char × Store × Nat → List Char × Store × Nat)
+          (hg : ∀ p, (g p).2.1 = p.2.1) st0 status0 text0,
+          (substText f st0 status0 text0).map g = .ok (t, st', s') → NoLocal x st0 → NoLocal x st' := by
+        intro g hg st0 status0 text0 hm hn0
+        cases hr : substText f st0 status0 text0 with
+        | error e => simp [hr, Except.map] at hm
+        | ok p =>
+          obtain ⟨t1, st1, s1⟩ := p
+          simp only [hr, Except.map, Except.ok.injEq] at hm
+          have := hg (t1, st1, s1)
+          rw [hm] at this
+          simp only at this
+          rw [this]; exact ihS _ _ _ _ _ _ hn0 hr
+      unfold substText at h
+      repeat' split at h
+      all_goals (try (have hfe := ‹f + 1 = Nat.succ _›; injection hfe with hfe; subst hfe))
+      all_goals (try dsimp only at h)
+      all_goals (repeat' split at h)
+      all_goals first
+        | (simp at h; done)
+        | (simp only [Except.ok.injEq, Prod.mk.injEq] at h; rw [← h.2.1]; exact hn)
+        | (exact hmap _ (fun ⟨_, _, _⟩ => rfl) _ _ _ h hn)
+        | (exact hmap _ (fun ⟨_, _, _⟩ => rfl) _ _ _ h (ihE _ _ _ _ _ _ hn (by assumption)))
+        | (exact ihS _ _ _ _ _ _ hn h)
+    · intro st status text v st' s' hn h
+      unfold expandArith at h
+      cases hs : substText f st status text with
+      | error e => simp [hs] at h
+      | ok p =>
+        obtain ⟨t, st1, status1⟩ := p
+        simp only [hs] at h
+        cases he : evalStrG shellI st1.portable t st1 with
+        | error e => simp [he] at h
+        | ok q =>
+          obtain ⟨v', st2⟩ := q
+          simp only [he, Except.ok.injEq, Prod.mk.injEq] at h
+          rw [← h.2.1]
+          exact evalStrG_preserves shellI (NoLocal x) (fun s n w s' hq ha => noLocal_assign x s s' n w hq ha)
+            (ihS _ _ _ _ _ _ hn hs) he
+
+theorem noLocal_runBody (x : Name) (es : List (List Char)) : ∀ st vals st', NoLocal x st →
+    runBody st es = (vals, .ok st') → NoLocal x st' := by
+  induction es with
+  | nil => intro st vals st' hn h; simp only [runBody, Prod.mk.injEq, Except.ok.injEq] at h; rw [← h.2]; exact hn
+  | cons e rest ih =>
+    intro st vals st' hn h
+    unfold runBody at h
+    cases he : expandArith (2 * e.length + 4) st 0 e with
+    | error err => simp [he] at h
+    | ok p =>
+      obtain ⟨v, st1, status⟩ := p
+      simp only [he, Prod.mk.injEq] at h
+      exact ih st1 _ st' ((noLocal_expand x _).2 _ _ _ _ _ _ hn he) (Prod.ext rfl h.2)
+
+/-- a name the function did not declare: what the function sees at its end is what its caller sees after
+    the function's context is popped -/
+theorem fn_sees_what_caller_sees (st0 : Store) (locals : Ctx) (es : List (List Char)) (x : Name)
+    (vals : List (List Char × Nat)) (st1 : Store) (hne : st0.ctxs ≠ []) (hx : locals.find x = none)
+    (h : runBody (pushLocals st0 locals) es = (vals, .ok st1)) :
+    showVisible st1 x = showVisible (popCtx st1) x := by
+  have h0 : NoLocal x (pushLocals st0 locals) := by
+    cases hc : st0.ctxs with
+    | nil => exact absurd hc hne
+    | cons r rs => exact ⟨locals, r, rs, by simp [pushLocals, hc], hx⟩
+  obtain ⟨c, r, rs, hc, hcx⟩ := noLocal_runBody x es _ vals st1 h0 h
+  unfold showVisible popCtx
+  simp only [hc, List.drop_succ_cons, List.drop_zero, visible, hcx]
 
 end YashModel.Arith
